@@ -49,7 +49,7 @@ def repo_tests():
 def run_check(prop, tier="quick"):
     t = time.time()
     rc, out = sh(f"./check {prop} {tier}", ROOT, timeout=7200)
-    first = [l for l in out.splitlines() if l.startswith("VIOLATION") or l.startswith("INCONCLUSIVE") or l.startswith("KNOWN")]
+    first = [l for l in out.splitlines() if l.startswith("VIOLATION")] or [l for l in out.splitlines() if l.startswith("INCONCLUSIVE") or l.startswith("KNOWN")]
     sigs = [l.strip() for l in out.splitlines() if l.strip().startswith("signature ")]
     return rc, (first[0] if first else ""), sigs[:3], time.time() - t
 
